@@ -99,13 +99,16 @@ class Model:
         return r
 
     @classmethod
-    def resolve(cls, store, ns, spelled):
-        """-> (page-level expectation, body-level expectation); either may be SKIP."""
+    def resolve(cls, store, ns, spelled, store2=None):
+        """-> (page-level expectation, body-level expectation); either may be SKIP.
+        store2 (diagnosis only): the state in which the redirect's target is looked up."""
         r = cls.find(store, ns, spelled)
         if r is None:
             return None, None
         if r.redirect is None:
             return r, r.body
+        if store2 is not None:
+            store = store2
         t = cls.find(store, ns, r.redirect)
         if t is None:
             return None, None
@@ -120,17 +123,17 @@ class Model:
         return SKIP, None
 
     @classmethod
-    def expected(cls, store, op, ns, spelled):
+    def expected(cls, store, op, ns, spelled, store2=None):
         if op in ("get", "getfull"):
             return cls.find(store, None if op == "getfull" else ns, spelled)
         if op == "exists":
             return cls.find(store, ns, spelled) is not None
         if op == "resolve":
-            return cls.resolve(store, ns, spelled)[0]
+            return cls.resolve(store, ns, spelled, store2)[0]
         if op == "body":
-            return cls.resolve(store, ns, spelled)[1]
+            return cls.resolve(store, ns, spelled, store2)[1]
         if op == "expand":
-            b = cls.resolve(store, ns, spelled)[1]
+            b = cls.resolve(store, ns, spelled, store2)[1]
             if b is SKIP:
                 return SKIP
             if b is None and ":" in spelled:
